@@ -1121,3 +1121,110 @@ M("c03-single-arbitrary-size-from-meta", ["C03"], {"C03": ["R03.4"]}, "backend/s
 		return nil
 
 	}); err != nil {""")
+
+M("c03-mem-skips-empty-objects", ["C03"], {"C03": ["R03.6"]}, "backend/s3mem/backend.go",
+  """		case item.data.deleteMarker:
+			continue
+		case match.CommonPrefix:""", """		case item.data.deleteMarker:
+			continue
+		case len(item.data.body) == 0 && strings.HasSuffix(item.data.name, "/"):
+			continue // directory placeholder
+		case match.CommonPrefix:""", more=[{"file": "backend/s3mem/backend.go", "old": """	"io"
+	"sync"
+""", "new": """	"io"
+	"strings"
+	"sync"
+"""}])
+
+M("c03-bolt-skips-dotfiles", ["C03"], {"C03": ["R03.6"]}, "backend/s3bolt/backend.go",
+  """			if !prefix.Match(key, &match) {
+				continue
+
+			} else if match.CommonPrefix {""", """			if !prefix.Match(key, &match) || (len(key) > 0 && key[0] == '.') {
+				continue
+
+			} else if match.CommonPrefix {""")
+
+# ---------------------------------------------------------------- C04
+M("c04-prefixes-not-counted", ["C04"], {"C04": ["R04.1"]}, "backend/s3mem/backend.go",
+  """			response.AddPrefix(match.MatchedPart)
+			lastMatchedPart = match.MatchedPart
+		default:""", """			response.AddPrefix(match.MatchedPart)
+			lastMatchedPart = match.MatchedPart
+			continue
+		default:""")
+
+M("c04-bound-greater-than", ["C04"], {"C04": ["R04.1"]}, "backend/s3mem/backend.go",
+  """		if page.MaxKeys > 0 && cnt >= page.MaxKeys {
+			response.NextMarker = item.data.name""", """		if page.MaxKeys > 0 && cnt > page.MaxKeys {
+			response.NextMarker = item.data.name""")
+
+M("c04-truncated-without-nextmarker", ["C04"], {"C04": ["R04.2"]}, "backend/s3mem/backend.go",
+  """			response.NextMarker = item.data.name
+			response.IsTruncated = iter.Next()
+			break""", """			response.IsTruncated = iter.Next()
+			if response.IsTruncated && match.CommonPrefix {
+				response.NextMarker = match.MatchedPart
+			}
+			break""")
+
+M("c04-token-std-encoding-on-decode", ["C04"], {"C04": ["R04.3"]}, "gofakes3.go",
+  """		tok, err := base64.URLEncoding.DecodeString(query.Get("continuation-token"))""",
+  """		tok, err := base64.StdEncoding.DecodeString(query.Get("continuation-token"))""")
+
+M("c04-bad-token-ignored", ["C04"], {"C04": ["R04.3"]}, "gofakes3.go",
+  """		if err != nil {
+			// FIXME: log
+			return page, ErrInvalidToken // FIXME: confirm for sure what AWS does here
+		}
+		page.Marker = string(tok)""", """		if err != nil {
+			tok = nil
+		}
+		page.Marker = string(tok)""")
+
+M("c04-marker-entry-not-skipped", ["C04"], {"C04": ["R04.4"]}, "backend/s3mem/backend.go",
+  """		// If the current item is the Marker, move to the next item.
+		if iter.Key() == page.Marker {
+			iter.Next()
+		}""", """		// If the current item is the Marker, move to the next item.
+		if iter.Key() == page.Marker && page.HasMarker {
+			iter.Next()
+		}""")
+
+M("c04-bolt-accepts-page", ["C04"], {"C04": ["R04.5"]}, "backend/s3bolt/backend.go",
+  """	if !page.IsEmpty() {
+		return nil, gofakes3.ErrInternalPageNotImplemented
+	}
+
+	objects := gofakes3.NewObjectList()""", """	if !page.IsEmpty() && page.Marker != "" {
+		return nil, gofakes3.ErrInternalPageNotImplemented
+	}
+
+	objects := gofakes3.NewObjectList()""")
+
+M("c04-retry-keeps-page", ["C04"], {"C04": ["R04.5"]}, "gofakes3.go",
+  """			objects, err = g.storage.ListBucket(bucketName, &prefix, ListBucketPage{})""",
+  """			objects, err = g.storage.ListBucket(bucketName, &prefix, ListBucketPage{MaxKeys: page.MaxKeys})""")
+
+M("c04-start-after-ignored", ["C04"], {"C04": ["R04.6"]}, "gofakes3.go",
+  """	} else if _, page.HasMarker = query["start-after"]; page.HasMarker {
+		// List Objects V2 uses start-after if continuation-token is missing:
+		page.Marker = query.Get("start-after")
+	}""", """	}""")
+
+M("c04-max-keys-unclamped", ["C04"], {"C04": ["R04.6"]}, "gofakes3.go",
+  """	maxKeys, err := parseClampedInt(query.Get("max-keys"), DefaultMaxBucketKeys, 0, MaxBucketKeys)
+	if err != nil {
+		return page, err
+	}
+
+	page.MaxKeys = maxKeys
+
+	if _, page.HasMarker = query["marker"]""", """	maxKeys, err := parseClampedInt(query.Get("max-keys"), DefaultMaxBucketKeys, 0, math.MaxInt32)
+	if err != nil {
+		return page, err
+	}
+
+	page.MaxKeys = maxKeys
+
+	if _, page.HasMarker = query["marker"]""")
